@@ -69,7 +69,7 @@ def histories(rng, tier):
         out.append(h)
     for _ in range(max(5, n // 10)):
         out.append(hist_healpix(rng))
-    return out
+    return [gen.file_variants(rng, h) for h in out]
 
 
 def hist_healpix(rng):
